@@ -57,6 +57,16 @@ def len_term(seq):
             return sub_terms(end, s)
         if seq[0] == "agg" and seq[1] == "array":
             return const(len(seq[4]))
+        if seq[0] == "default":
+            return const(0)
+        if seq[0] == "newbuf":
+            return const(0)
+        if seq[0] == "reserved":
+            return len_term(seq[1])
+        if seq[0] == "appended":
+            piece = seq[2]
+            if piece[0] == "slice":
+                return add_terms(len_term(seq[1]), len_term(piece[1]))
     t = ("len", seq)
     TY.setdefault(t, (64, False))
     return t
@@ -916,6 +926,20 @@ def m_add_headers(px, st, fr, ev):
         return None
     ent = deref_val(px, st, ev["args"][0], depth=1)
     new = ("hdrs", cur[1] + ((("ENTITY",), ent, ev["uid"]),))
+
+    def do(s):
+        px._write(s, a[1], a[2], new)
+    return val(UNIT, do=do)
+
+
+@model("std::vec::Vec::<T, A>::reserve_exact", "std::vec::Vec::<T, A>::reserve",
+       reason="reserve: same contents, capacity >= len + additional")
+def m_reserve(px, st, fr, ev):
+    a = ev["args"][0]
+    if a[0] != "ref":
+        return None
+    old = px._read(st, a[1], a[2])
+    new = ("reserved", old, ev["args"][1])
 
     def do(s):
         px._write(s, a[1], a[2], new)
